@@ -302,11 +302,7 @@ pub fn replay(case: &J) -> Verdict {
         return zinc_roundtrip(&v).map_err(|(stage, d)| (format!("{stage}:two-values-in-one-document:{}", crate::model::shrink::shape_sig(&v)), d));
     }
     if case["history_pair"].is_string() {
-        let (w, v) = (crate::model::v::from_json(&case["before"]), crate::model::v::from_json(&case["then"]));
-        let alone = std::thread::scope(|s| s.spawn(|| zinc_observation(&v)).join().unwrap());
-        let _ = zinc_observation(&w);
-        let after = zinc_observation(&v);
-        return if alone == after { Ok(()) } else { Err(("history-changes-output:zinc-codec".into(), format!("alone {alone}, after {after}"))) };
+        return super::common::replay_history_pair(case, &|j| crate::model::v::from_json(j), &zinc_observation, "zinc-codec");
     }
     replay_value(case, &zinc_roundtrip)
 }
